@@ -31,6 +31,25 @@ Theorem C08_message_has_every_error : forall info es e,
   In e es -> In (render_error info e) (map (render_error info) es).
 Proof. exact In_text_line. Qed.
 
+(* teardown order (src/teardown.rs): the value chain of the original is dropped BEFORE the error list is read.  A lent
+   value that owns a clone of the mock and calls it from its Drop (swallowing the panic) runs during that release;
+   what its call records is part of the verdict of the very drop / verify() that released it *)
+Theorem C08_errors_recorded_during_teardown_are_reported : forall w i it e es,
+  live_inst w i = Some it -> i_calls it <> [] -> i_original it = true -> i_panicked it = false ->
+  i_torn it = false -> i_vid it = true -> count_after_release (w_insts w) it = 1 ->
+  errs (w_state (release w i it)) = e :: es ->
+  snd (step w {| ev_ctx := here; ev_base := BDrop i |}) = ("P:" ++ verdict_text hinfo (e :: es))%string /\
+  snd (step w {| ev_ctx := here; ev_base := BVerify i |}) = ("P:" ++ verdict_text hinfo (e :: es))%string.
+Proof. exact release_errors_reported. Qed.
+
+Example C08_teardown_nonvacuous :
+  (* a strict mock without clauses lends a value whose Drop calls m0(5): dropping the original reports that call *)
+  let w := {| w_bc := cfg_std; w_cfg := {| c_fallback := FbError; c_table := [] |}; w_state := init_state;
+              w_insts := [add_lent_call new_original 0 5]; w_armed := 0 |} in
+  errs (w_state w) = [] /\ count_after_release (w_insts w) (add_lent_call new_original 0 5) = 1 /\
+  snd (step w (Ev false false (drop_ 0))) = "P:T::m0(5): No mock implementation found."%string.
+Proof. vm_compute. repeat split; reflexivity. Qed.
+
 (* report() maps the same result to FAILURE (C09_report_matches_verify) *)
 
 (* non-vacuity: a strict mock, one unmatched call (caught), then a satisfied
